@@ -329,7 +329,8 @@ def _compare_rules(ck: Checker) -> None:
     def just(t, lab):
         if t.kind == "test" and isinstance(t.ast, ast.Name) and t.ast.id == "delete" and lab == "T":
             return True
-        return typ_is(t, lab, ("MODIFY", "UNCHANGED"))
+        # ADD / MODIFY / UNCHANGED: the key is in the target, so removing what sits there is a replacement
+        return typ_is(t, lab, ("MODIFY", "UNCHANGED", "ADD"))
 
     for n, c in sinks:
         wit = cut(g, [n.id], just)
@@ -337,6 +338,31 @@ def _compare_rules(ck: Checker) -> None:
                    "queued for deletion only with delete enabled, or as part of a replacement / relink",
                    "a workspace entry outside the target can be queued for deletion although deletion is not enabled",
                    witness=g.fmt_path(wit) if wit else None)
+
+    # an ADD can carry an old entry of unknown kind (index diff types an entry without meta and hash - a broken
+    # symlink in the workspace - as ADD): whatever sits at that path is queued for removal before the create,
+    # otherwise makedirs / the copy collide with it
+    sink_ids = {n.id for n, _ in sinks}
+    n_add = 0
+    for t in g.nodes.values():
+        if t.kind == "test" and isinstance(t.ast, ast.Compare) and norm(t.ast.left).endswith(".typ") and len(t.ast.ops) == 1 and isinstance(t.ast.ops[0], ast.Eq) and norm(t.ast.comparators[0]) == "ADD" and t.loops:
+            n_add += 1
+            chg = norm(t.ast.left).rsplit(".", 1)[0]
+
+            def no_old(a, lab, b, chg=chg):
+                if lab == "exc":
+                    return True
+                if a.kind != "test":
+                    return False
+                x = norm(a.ast)
+                return (x == f"{chg}.old is None" and lab == "T") or (x == f"{chg}.old is not None" and lab == "F") or (x == f"{chg}.old" and lab == "F") or (x == f"not {chg}.old" and lab == "T")
+
+            head = t.loops[-1]
+            rr = g.reach([d for lab, d in t.succ if lab == "T"], skip_node=lambda x: x.id in sink_ids, skip_edge=no_old)
+            ck.require(head not in rr, "C09.kinds", cmp_, t, "an ADD whose old entry is present queues that entry for removal",
+                       "an entry typed ADD that still has an old side (an entry of unknown kind, e.g. a broken symlink where the target has a directory) is created without removing what is in the way: apply() then fails with FileExistsError and the workspace never converges",
+                       witness=g.fmt_path(g.path_to(rr, head)) if head in rr else None, construct=f"{norm(t.ast)} / old side removed")
+    ck.floor("C09.kinds", n_add, 1, "ADD branches in _compare")
 
     # kinds: every queue receives an entry only after that entry's kind was tested
     n_kind = 0
